@@ -14,7 +14,9 @@ def main():
     root = os.environ.get("VERIF_E2E_ROOT")
     plan = json.load(open(plan_file)) if plan_file and os.path.exists(plan_file) else []
     from simkit import simfs
-    from simkit.core import EventLog
+    from simkit.core import EventLog, install_outside_guard
+    if root:
+        install_outside_guard([root])
     import nbdime.nbmergeapp as app
     import nbdime.prettyprint as pp
     from nbdime.vcs.git import mergedriver
